@@ -384,6 +384,13 @@ def run(rep):
     written = wkeys_top | wkeys_el
     rep.check(rkeys <= written, "R12.e", file, "Vector.from_dict", "keys read are keys written by to_dict",
               f"read but never written: {sorted(rkeys - written)}", line=fd.lineno)
+    # an empty vector (Vector([]), the parameters of Identity / Softmax) is a vector: `a, b, c = zip(*rows)` yields nothing to unpack when
+    # there are no rows
+    starzip = [n for n in ast.walk(fd) if isinstance(n, ast.Assign) and isinstance(n.targets[0], (ast.Tuple, ast.List)) and len(n.targets[0].elts) > 1 and
+               isinstance(n.value, ast.Call) and dotted(n.value.func) == "zip" and any(isinstance(a_, ast.Starred) for a_ in n.value.args)]
+    rep.check(not starzip, "R12.e", file, "Vector.from_dict", "the element lists are rebuilt in a way that also works for a vector without elements",
+              f"line {starzip[0].lineno}: unpacking `zip(*rows)` into {len(starzip[0].targets[0].elts)} names raises ValueError when rows is empty" if starzip else "",
+              line=fd.lineno, firm=True)
     rep.check(written - {"nval"} <= rkeys | {"nval"}, "R12.e", file, "Vector.to_dict", "every key written is restored by from_dict",
               f"written but never read: {sorted(written - rkeys)}", line=td.lineno)
     # element keys bound to the right field
